@@ -108,6 +108,22 @@ Theorem C16_ring_no_deadlock :
 Proof. intros K B prog s HK HB. exact (ring_no_stuck_proof K B HK HB prog s). Qed.
 Print Assumptions C16_ring_no_deadlock.
 
+(* the file written by the threaded output stream equals the concatenation of all writes made to it:
+   (1) at every moment, under every schedule, the bytes handed to the writer so far are a prefix of that
+   concatenation (nothing lost, duplicated or reordered); (2) once the destructor has returned (owner
+   finished, i.e. the writer thread was joined) the file is exactly the concatenation and was flushed once *)
+Theorem C16_ring_file_is_concatenation_of_writes :
+  forall K B prog s, 2 <= K -> 1 <= B ->
+  reachable (ring_step K B) (ring_init (ring_output_init K) (ring_trash_init K) B prog) s ->
+  (exists rest, r_file s ++ rest = concat prog) /\
+  (r_ppc s = RPDone -> r_cpc s = RCDone -> r_file s = concat prog /\ r_flushes s = 1).
+Proof.
+  intros K B prog s HK HB Hr. split.
+  - exact (ring_file_prefix_proof K B HK HB prog s Hr).
+  - exact (ring_file_complete_proof K B HK HB prog s Hr).
+Qed.
+Print Assumptions C16_ring_file_is_concatenation_of_writes.
+
 (* with a single block the protocol of the source WOULD deadlock in the destructor (why K >= 2 is needed):
    the owner waits for a free block after posting the poison, the writer exits without freeing one *)
 Theorem C16_ring_one_block_deadlocks :
